@@ -11,6 +11,7 @@ import random
 import warnings
 
 import common
+import lattice_lib as L
 
 ASSUME = [
     "angles are Pythagorean (cos, sin rational); floats handed to the code are atan2(s,c) (mod 2pi where the API demands [0,2pi])",
@@ -115,6 +116,12 @@ def worker(x):
     for modname in ("tools", "laue"):
         mod = importlib.import_module("xfab." + modname)
         tag = "xfab.%s %s" % (modname, {k: cs[k] for k in ("kind", "a", "p", "q")})
+
+        def G(f, *args):
+            r, m_ = L.twice(f, *args)
+            if m_:
+                out.append(m_ + " (%s)" % tag)
+            return r
         try:
             k = cs["kind"]
             # "for all real arguments": the non-Euler builders are also called with the angle shifted by multiples of 2 pi
@@ -123,18 +130,18 @@ def worker(x):
             s1, s2, s3 = sh[j], sh[(j + 2) % 5], sh[(j + 3) % 5]
             if k == "euler":
                 a = [ang(t, True) for t in cs["a"]]
-                M = mod.euler_to_u(*a)
+                M = G(mod.euler_to_u, *a)
             elif k == "omega":
-                M = mod.form_omega_mat(ang(cs["a"][0]) + s1)
+                M = G(mod.form_omega_mat, ang(cs["a"][0]) + s1)
             elif k == "general":
-                M = mod.form_omega_mat_general(ang(cs["a"][0]) + s1, ang(cs["a"][1]) + s2, ang(cs["a"][2]) + s3)
+                M = G(mod.form_omega_mat_general, ang(cs["a"][0]) + s1, ang(cs["a"][1]) + s2, ang(cs["a"][2]) + s3)
             elif k == "quart":
-                M = mod.quart_to_omega(math.degrees(ang(cs["a"][0]) + s1), ang(cs["a"][1]) + s2, ang(cs["a"][2]) + s3)
+                M = G(mod.quart_to_omega, math.degrees(ang(cs["a"][0]) + s1), ang(cs["a"][1]) + s2, ang(cs["a"][2]) + s3)
             elif k == "tilt":
-                M = mod.detect_tilt(ang(cs["a"][0]) + s1, ang(cs["a"][1]) + s2, ang(cs["a"][2]) + s3)
+                M = G(mod.detect_tilt, ang(cs["a"][0]) + s1, ang(cs["a"][1]) + s2, ang(cs["a"][2]) + s3)
             else:
                 r = [v / cs["q"] for v in cs["p"]]
-                M = mod.rod_to_u(r)
+                M = G(mod.rod_to_u, r)
             M = np.asarray(M, dtype=float)
             n += 1
             if M.shape != (3, 3) or not np.all(np.isfinite(M)) or np.abs(M - ex).max() > 1e-12 * (1 if k != "rod" else 10) * (20 if k in ("omega", "general", "quart", "tilt") else 1):
@@ -147,23 +154,23 @@ def worker(x):
             # inverses on the exact lattice matrix
             if k in ("euler", "tilt", "general", "rod"):
                 n += 1
-                e = np.asarray(mod.u_to_euler(ex), dtype=float)
+                e = np.asarray(G(mod.u_to_euler, ex), dtype=float)
                 if not (np.all(e >= 0) and e[0] <= 2 * math.pi and e[2] <= 2 * math.pi and e[1] <= math.pi):
                     out.append("u_to_euler returned angles %s outside [0,2pi]x[0,pi]x[0,2pi] (%s)" % (e.tolist(), tag))
                 else:
                     Rb = Rz(e[0]).dot(Rx(e[1])).dot(Rz(e[2]))
-                    Rc = np.asarray(mod.euler_to_u(*e), dtype=float)
+                    Rc = np.asarray(G(mod.euler_to_u, *e), dtype=float)
                     if np.abs(Rb - ex).max() > 1e-6 or np.abs(Rc - ex).max() > 1e-6:
                         out.append("u_to_euler angles %s rebuild the matrix with error %.3g > 1e-6 (%s)" %
                                    (e.tolist(), float(np.abs(Rb - ex).max()), tag))
             if k == "rod":
                 n += 1
-                r = np.asarray(mod.u_to_rod(ex), dtype=float)
+                r = np.asarray(G(mod.u_to_rod, ex), dtype=float)
                 want = np.array(cs["p"], dtype=float) / cs["q"]
                 if not np.all(np.isfinite(r)) or np.abs(r - want).max() > 1e-9 * max(1.0, np.abs(want).max() ** 3):
                     out.append("u_to_rod gives %s, the Rodrigues vector is %s (%s)" % (r.tolist(), want.tolist(), tag))
                 else:
-                    Rb = np.asarray(mod.rod_to_u(r), dtype=float)
+                    Rb = np.asarray(G(mod.rod_to_u, r), dtype=float)
                     if np.abs(Rb - ex).max() > 1e-6:
                         out.append("rod_to_u(u_to_rod(U)) differs from U by %.3g (%s)" % (float(np.abs(Rb - ex).max()), tag))
         except Exception as e_:
@@ -189,7 +196,10 @@ def gimbal_worker(a):
         mod = importlib.import_module("xfab." + modname)
         tag = "xfab.%s phi1=%r PHI=%r phi2=%r classes %s %s %s" % (modname, p1, P, p2, x["c1"], x["cP"], x["c2"])
         try:
-            e = np.asarray(mod.u_to_euler(M), dtype=float)
+            e, m_ = L.twice(mod.u_to_euler, M)
+            e = np.asarray(e, dtype=float)
+            if m_:
+                out.append(m_ + " (%s)" % tag)
         except Exception as ex:
             out.append("u_to_euler raised %r on a proper rotation (%s)" % (ex, tag))
             continue
